@@ -1498,3 +1498,69 @@ Proof.
     destruct (f_conf F !! op.1) as [[ph pbh]|]; [|discriminate].
     apply bool_decide_eq_true in Hop. exists ph, pbh. split; [reflexivity|exact Hop].
 Qed.
+
+(** * I. [facts_wf] of the resulting facts *)
+
+Lemma facts_wf_confirm (U : universe) (F : facts) (tid : N) (t : tx) (h : Z) (bhash : N)
+    (C' : gset N) (L : gmap (N * N) lockval) :
+  U !! tid = Some t →
+  (∀ op, op ∈ t_ins t → op.1 ≠ tid) →
+  f_conf F !! tid = None →
+  facts_wf U (wu F C') → tid ∉ C' → C' ⊆ f_unconf F →
+  0 <= h →
+  (∀ t' h' b', f_conf F !! t' = Some (h', b') → h' = h → b' = bhash) →
+  (∀ c op, is_Some (f_conf F !! c) → op ∈ t_ins t → op ∉ tx_ins U c) →
+  (∀ c op, is_Some (f_conf F !! c) → op ∈ tx_ins U c → op.1 ≠ tid) →
+  (∀ op, op ∈ t_ins t → known F op.1 = true → ∃ ph pbh, f_conf F !! op.1 = Some (ph, pbh) ∧ ph <= h) →
+  (∀ op v, op ∈ t_ins t → v ∈ C' → op ∉ tx_ins U v) →
+  facts_wf U {| f_conf := <[tid := (h, bhash)]> (f_conf F); f_unconf := C'; f_leases := L |}.
+Proof.
+  intros HUt Hins_ne Hnone [W1 W2 W3 W4 W5 W6 W7 W8] HtidC HsubC E1 E2 E3 E4 E5 Hno.
+  simpl in *.
+  assert (Hins : tx_ins U tid = t_ins t) by (unfold tx_ins; rewrite HUt; reflexivity).
+  assert (Hlk : ∀ x, x ≠ tid → <[tid := (h, bhash)]> (f_conf F) !! x = f_conf F !! x).
+  { intros x Hne. apply lookup_insert_ne. congruence. }
+  assert (Hcs : ∀ op m, conf_spender U {| f_conf := <[tid := (h, bhash)]> (f_conf F); f_unconf := C'; f_leases := L |} op m →
+                        (m = tid ∧ op ∈ t_ins t) ∨ (m ≠ tid ∧ conf_spender U (wu F C') op m)).
+  { intros op m [Hm Hop]. simpl in Hm. destruct (decide (m = tid)) as [->|Hne].
+    - left. split; [reflexivity|]. rewrite <- Hins. exact Hop.
+    - right. split; [exact Hne|]. split; [simpl; rewrite <- (Hlk m Hne); exact Hm|exact Hop]. }
+  constructor; simpl.
+  - intros x [Hx|Hx].
+    + destruct (decide (x = tid)) as [->|Hne]; [rewrite HUt; eexists; reflexivity|].
+      rewrite Hlk in Hx by exact Hne. apply W1. left. exact Hx.
+    + apply W1. right. exact Hx.
+  - intros x Hx HxC. destruct (decide (x = tid)) as [->|Hne]; [contradiction|].
+    rewrite Hlk in Hx by exact Hne. exact (W2 x Hx HxC).
+  - intros op m1 m2 H1 H2. apply Hcs in H1. apply Hcs in H2.
+    destruct H1 as [[-> Hop1]|[Hne1 H1]], H2 as [[-> Hop2]|[Hne2 H2]].
+    + reflexivity.
+    + exfalso. destruct H2 as [Hm2 Hop2]. exact (E3 m2 op Hm2 Hop1 Hop2).
+    + exfalso. destruct H1 as [Hm1 Hop1]. exact (E3 m1 op Hm1 Hop2 Hop1).
+    + exact (W3 op m1 m2 H1 H2).
+  - intros op m u Hm Hu. apply Hcs in Hm. destruct Hm as [[-> Hop]|[Hne Hm]].
+    + destruct Hu as [HuC Hopu]. simpl in HuC. exact (Hno op u Hop HuC Hopu).
+    + exact (W4 op m u Hm Hu).
+  - intros m h0 bh0 op Hm Hop Hk.
+    destruct (decide (m = tid)) as [->|Hne].
+    + rewrite lookup_insert in Hm. inversion Hm; subst h0 bh0.
+      rewrite Hins in Hop. pose proof (Hins_ne op Hop) as Hop1. rewrite Hlk by exact Hop1.
+      apply E5; [exact Hop|]. unfold known. apply orb_true_iff. rewrite Hlk in Hk by exact Hop1.
+      destruct Hk as [Hk|Hk]; [left|right]; apply bool_decide_eq_true_2; [exact Hk|apply HsubC; exact Hk].
+    + rewrite Hlk in Hm by exact Hne.
+      assert (Hop1 : op.1 ≠ tid) by (apply (E4 m op); [rewrite Hm; eexists; reflexivity|exact Hop]).
+      rewrite Hlk by exact Hop1. rewrite Hlk in Hk by exact Hop1.
+      exact (W5 m h0 bh0 op Hm Hop Hk).
+  - exact W6.
+  - intros t1 t2 h0 b1 b2 H1 H2.
+    destruct (decide (t1 = tid)) as [->|Hne1], (decide (t2 = tid)) as [->|Hne2].
+    + rewrite H1 in H2. inversion H2. reflexivity.
+    + rewrite lookup_insert in H1. inversion H1; subst h0 b1. rewrite Hlk in H2 by exact Hne2.
+      symmetry. exact (E2 t2 h b2 H2 eq_refl).
+    + rewrite lookup_insert in H2. inversion H2; subst h0 b2. rewrite Hlk in H1 by exact Hne1.
+      exact (E2 t1 h b1 H1 eq_refl).
+    + rewrite Hlk in H1 by exact Hne1. rewrite Hlk in H2 by exact Hne2. exact (W7 t1 t2 h0 b1 b2 H1 H2).
+  - intros x h0 b0 Hx. destruct (decide (x = tid)) as [->|Hne].
+    + rewrite lookup_insert in Hx. inversion Hx; subst. exact E1.
+    + rewrite Hlk in Hx by exact Hne. exact (W8 x h0 b0 Hx).
+Qed.
